@@ -26,6 +26,10 @@ def _reserve_box(cr):
     pargs = c13.pool_arg_sets()
     cr.bounded_check(run_contract_enum, "signal-pool-box", c13.pool_contract, pargs,
                      f"{len(pargs)} analyser states: the pool is the virtual signals minus signal-W, the wildcards, allocated and referenced names (contract evaluated on the real method)")
+    nargs = c13.resolve_name_arg_sets()
+    cr.bounded_check(run_contract_enum, "resolve-signal-name-box", c13.resolve_name, nargs,
+                     f"{len(nargs)} (type, entry, mapping) cases: explicit names as they are, else the entry's name, else the mapping; an implicit type gets ONE fresh signal, stable across "
+                     "calls (contract evaluated on the real SignalAnalyzer.resolve_signal_name)")
     rargs = c13.resolve_identity_arg_sets()
     cr.bounded_check(run_contract_enum, "resolve-signal-identity-box", c13.resolve_identity, rargs,
                      f"{len(rargs)} entries x analyser states: explicit / literal-declared types keep their signal, a mapped implicit type its mapped signal, an unmapped one a FRESH signal that is "
